@@ -150,6 +150,15 @@ class SymBuilder:
     def isub(self, x, y):
         return self.ctx.binop(__import__("ast").Sub(), x, y, inplace=True)
 
+    def aug_catching(self, op, x, y):
+        """the augmented statement  x op= y  that may raise: (new value of x, None) or (None, exception type name)"""
+        from .interp import PyRaise
+        import ast
+        try:
+            return self.ctx.binop({"+": ast.Add, "-": ast.Sub, "*": ast.Mult, "/": ast.Div}[op](), x, y, inplace=True), None
+        except PyRaise as e:
+            return None, e.exc.tname
+
     def setitem(self, o, k, v):
         self.ctx.setitem(o, k, v)
 
@@ -314,6 +323,20 @@ class NativeBuilder:
     def isub(self, x, y):
         x -= y
         return x
+
+    def aug_catching(self, op, x, y):
+        try:
+            if op == "+":
+                x += y
+            elif op == "-":
+                x -= y
+            elif op == "*":
+                x *= y
+            else:
+                x /= y
+            return x, None
+        except Exception as e:
+            return None, type(e).__name__
 
     def setitem(self, o, k, v):
         o[k] = v
